@@ -3,12 +3,11 @@
 Correspondence (T2/T3) between /repo `optimize_blockwise_fusion` / `Fused._task` and the Lean model
 `Dx.Fusion` (lean/DxModel/Fusion.lean), plus the fuse-vs-no-fuse end-to-end search.
 
-Iteration order of Python sets: `_fusion_pass` iterates a `set` of name strings; the order decides which
-group is found.  The model takes the order as a parameter.  To drive both sides with the *same* order
-the families temporarily bind the name `set` in the namespace of `dask_expr._expr` to an
-insertion-ordered set class whose iteration order is a chosen permutation (no source change; removed
-again afterwards).  A second family runs the unmodified code (native hash order) and checks every
-group it finds with the proven Lean checkers (`groupOKb`, `fusedOK`), which is order-independent.
+Iteration order: `_fusion_pass` iterates `sorted(dependencies[next._name])` (name strings in sorted order);
+the order decides which group is found.  The model takes the order as a parameter; every pass of the real
+loop is captured (the plan before the pass and the `Fused` that replaces `group[0]`) and the model is run
+on the abstraction of that plan with the string order of the real names as sort keys.  Every group is also
+checked with the proven Lean checkers (`groupOKb`, `planOKb`, `fusedOK`), which are order-independent.
 """
 from __future__ import annotations
 
@@ -16,6 +15,7 @@ import contextlib
 import itertools
 import json
 import operator
+import re
 
 import dask
 import numpy as np
@@ -129,42 +129,12 @@ def spec_wf(spec):
     return True
 
 
-# --------------------------------------------------------------------------- controlled set order
-
-
-def permute(p, rev, l):
-    pool = list(l)
-    out = []
-    q = p
-    while pool:
-        i = q % len(pool)
-        q //= len(pool)
-        out.append(pool.pop(i))
-    return out[::-1] if rev else out
-
-
-class _OrdSet(set):
-    POL = (0, False)
-
-    def __init__(self, it=()):
-        super().__init__()
-        self._ord = []
-        for x in it:
-            self.add(x)
-
-    def add(self, x):
-        if x not in self:
-            self._ord.append(x)
-        super().add(x)
-
-    def __iter__(self):
-        return iter(permute(_OrdSet.POL[0], _OrdSet.POL[1], self._ord))
+# --------------------------------------------------------------------------- observing the real passes
 
 
 @contextlib.contextmanager
-def observed_fusion(pol=None):
-    """Run the real fusion with (optionally) a controlled set order; records every
-    `expr.substitute(group[0], Fused(...))` call as (plan_before, fused)."""
+def observed_fusion():
+    """Records every `expr.substitute(group[0], Fused(...))` call of the real loop as (plan_before, fused)."""
     import dask_expr._expr as E
     from dask_expr import _core
 
@@ -177,15 +147,10 @@ def observed_fusion(pol=None):
         return orig(self, old, new)
 
     _core.Expr.substitute = wrapped
-    if pol is not None:
-        _OrdSet.POL = pol
-        E.set = _OrdSet
     try:
         yield calls
     finally:
         _core.Expr.substitute = orig
-        if pol is not None:
-            del E.set
 
 
 # --------------------------------------------------------------------------- abstraction of real plans
@@ -256,6 +221,10 @@ class Plan:
             mem = [self.ids[m._name] for m in e.exprs] if isinstance(e, Fused) else []
             rows.append(f"{i}:{int(bw)}:{kall}:{e.npartitions}:{e.ndim}:{_l(deps)}:{_l(mem)}")
         self.text = ";".join(rows)
+        # sort keys: rank of every node's name in string order (`sorted(dependencies[...])`)
+        order = sorted(range(len(self.exprs)), key=lambda i: self.exprs[i]._name)
+        rank = {i: r for r, i in enumerate(order)}
+        self.keys = ",".join(str(rank[i]) for i in range(len(self.exprs)))
 
     def id(self, e):
         return self.ids[e._name]
@@ -399,61 +368,98 @@ def real_queries():
 # --------------------------------------------------------------------------- families
 
 
-def _fuse_real(expr, pol):
+def _fuse_real(expr, pol=None):
     from dask_expr._expr import optimize_blockwise_fusion
 
-    with observed_fusion(pol) as calls:
+    with observed_fusion() as calls:
         out = optimize_blockwise_fusion(expr)
     return out, calls
 
 
+def _pass_requests(label, expr, reqs, code, inputs, nontriv, checks):
+    """one request per real pass (model run on the plan before the pass, real name order as sort keys)
+    + bookkeeping for the `done` logic of the outer loop"""
+    out, calls = _fuse_real(expr)
+    first = len(reqs)
+    for before, fused in calls:
+        pb = Plan(before)
+        g = [pb.id(m) for m in fused.exprs]
+        ds = [pb.id(d) for d in fused.dependencies()]
+        reqs.append(f"fusion pass dag={pb.text} root={pb.root} keys={pb.keys}")
+        code.append(f"G group={_l(g)} deps={_l(ds)} np={fused.npartitions} nd={fused.ndim}")
+        inputs.append({"case": label if isinstance(label, list) else str(label), "plan": pb.text, "keys": pb.keys})
+        nontriv.append(True)
+    # the pass after the last successful one (runs unless the last one reported done)
+    pf = Plan(out)
+    reqs.append(f"fusion pass dag={pf.text} root={pf.root} keys={pf.keys}")
+    code.append("G none")
+    inputs.append({"case": label if isinstance(label, list) else str(label), "plan": pf.text, "keys": pf.keys, "what": "final plan"})
+    nontriv.append(False)
+    checks.append((first, len(calls)))
+    return out, calls
+
+
+def _compare_passes(f, reqs, code, inputs, nontriv, checks):
+    model = drive(reqs)
+    # split the model's `done=` flag off and check the loop logic with it
+    stripped, done = [], []
+    for m in model:
+        mm = re.match(r"(.*) done=([01])$", m)
+        stripped.append(mm.group(1) if mm else m)
+        done.append(mm.group(2) if mm else None)
+    code2, model2, inputs2, non2 = [], [], [], []
+    for first, k in checks:
+        for j in range(first, first + k):
+            code2.append(code[j]); model2.append(stripped[j]); inputs2.append(inputs[j]); non2.append(True)
+            if j < first + k - 1:
+                # a later pass replaced something: this pass cannot have reported done
+                code2.append("not done"); model2.append("not done" if done[j] == "0" else f"done={done[j]}")
+                inputs2.append(dict(inputs[j], what="loop continues")); non2.append(True)
+        last_done = done[first + k - 1] if k else "0"
+        # after the last successful pass the loop stops: it reported done, or the next pass finds nothing
+        code2.append("stops")
+        model2.append("stops" if (last_done == "1" or stripped[first + k] == "G none") else f"continues: {stripped[first + k]}")
+        inputs2.append(dict(inputs[first + k], what="loop stops")); non2.append(k > 0)
+    f.compare(inputs2, code2, model2, non2)
+    for d in f.disagreements:
+        if d:
+            d["diff"] = first_diff(str(d["code"]), str(d["model"]))
+
+
 def fam_pass_stub(ctx):
-    """T2 (i): whole loop on stub DAGs — final plan structure and number of successful passes."""
-    f = Family("fusion_loop_plan[optimize_blockwise_fusion on stub DAGs, controlled set order]")
+    """T2 (i): every pass of the real loop on stub DAGs — group members, group dependencies, loop logic."""
+    f = Family("fusion_pass_groups[_fusion_pass + outer loop on stub DAGs, real name order]")
     rng = ctx.rng
     specs = []
     kmax_ex = 3 if ctx.quick else 4
-    n_ex = 0
     for k in range(1, kmax_ex + 1):
         for spec in exhaustive_specs(k):
-            if k == kmax_ex and k >= 3 and not spec_wf(spec) and ctx.quick:
-                continue
-            if k == 4 and not spec_wf(spec):
+            if k >= 3 and not spec_wf(spec) and (ctx.quick or k == 4):
                 continue
             specs.append(spec)
-            n_ex += 1
-    if ctx.quick and len(specs) > 6000:
+    if ctx.quick and len(specs) > 5000:
         rng.shuffle(specs)
-        specs = specs[:6000]
-    nrand = 3000 if ctx.quick else 60000
+        specs = specs[:5000]
+    nrand = 4000 if ctx.quick else 60000
     base = len(specs)
     while len(specs) < base + nrand:
         sp = random_spec(rng)
         if spec_wf(sp) or rng.random() < 0.15:
             specs.append(sp)
-    reqs, code, inputs, nontriv = [], [], [], []
+    reqs, code, inputs, nontriv, checks = [], [], [], [], []
+    multi = 0
     for spec in specs:
         ex = build_stub(spec)
-        pols = [(0, False), (0, True)] + [(rng.randrange(720), rng.random() < 0.5)]
-        for pol in pols:
-            try:
-                out, calls = _fuse_real(ex[-1], pol)
-                code.append(f"P passes={len(calls)} {render_stub_plan(out)}")
-            except Exception as e:  # noqa: BLE001
-                code.append(f"ERR {type(e).__name__}")
-                calls = []
-            reqs.append(f"fusion fuse dag={stub_plan_text(spec)} root={len(spec) - 1} pol={pol[0]} rev={int(pol[1])}")
-            inputs.append({"spec": spec, "pol": pol})
-            nontriv.append(len(calls) > 0)
-    model = drive(reqs)
-    f.compare(inputs, code, model, nontriv)
-    for d in f.disagreements:
-        if d:
-            d["diff"] = first_diff(d["code"], d["model"])
+        try:
+            _, calls = _pass_requests(spec, ex[-1], reqs, code, inputs, nontriv, checks)
+            multi += len(calls) > 1
+        except Exception as e:  # noqa: BLE001
+            reqs.append("ping"); code.append(f"ERR {type(e).__name__}: {str(e)[:80]}")
+            inputs.append({"spec": spec}); nontriv.append(True); checks.append((len(reqs) - 1, 0))
+    _compare_passes(f, reqs, code, inputs, nontriv, checks)
     f.exhaustive = not ctx.quick
-    f.note = (f"{len(specs)} DAGs (all shapes x kinds on <= {kmax_ex} nodes"
-              f"{' well-formed' if kmax_ex >= 3 else ''}, random <= 9 nodes) x 3 iteration orders; "
-              f"multi-pass cases={sum(1 for c in code if c.startswith('P passes=') and int(c.split()[1][7:]) > 1)}")
+    f.note = (f"{len(specs)} DAGs (all shapes x kinds on <= {kmax_ex} nodes, random <= 9 nodes: shared nodes, 1/n partitions, "
+              f"broadcast operands, both broadcast rules, non-blockwise separators); multi-pass cases={multi}")
     return f
 
 
@@ -489,42 +495,22 @@ def _real_plans(ctx):
 
 
 def fam_pass_real(ctx):
-    """T2 (i): every pass on real expression DAGs — group members and group dependencies."""
-    f = Family("fusion_pass_groups[_fusion_pass on real expression DAGs, controlled set order]")
-    rng = ctx.rng
-    reqs, code, inputs, nontriv = [], [], [], []
+    """T2 (i): every pass on real expression DAGs — group members, group dependencies, loop logic."""
+    f = Family("fusion_pass_groups[_fusion_pass + outer loop on real expression DAGs, real name order]")
+    reqs, code, inputs, nontriv, checks = [], [], [], [], []
     unknown = set()
     plans = _real_plans(ctx)
     for label, expr in plans:
-        for pol in [(0, False), (rng.randrange(720), rng.random() < 0.5)]:
-            try:
-                out, calls = _fuse_real(expr, pol)
-            except Exception as e:  # noqa: BLE001
-                reqs.append("ping")
-                code.append(f"ERR {type(e).__name__}: {str(e)[:80]}")
-                inputs.append({"query": label, "pol": pol})
-                nontriv.append(True)
-                continue
-            # whole loop: number of successful passes
-            p0 = Plan(expr)
-            unknown.update(p0.unknown_bcast)
-            reqs.append(f"fusion passes dag={p0.text} root={p0.root} pol={pol[0]} rev={int(pol[1])}")
-            code.append(f"N {len(calls)}")
-            inputs.append({"query": label, "pol": pol, "what": "passes"})
-            nontriv.append(len(calls) > 0)
-            for before, fused in calls:
-                pb = Plan(before)
-                g = [pb.id(m) for m in fused.exprs]
-                ds = [pb.id(d) for d in fused.dependencies()]
-                reqs.append(f"fusion pass dag={pb.text} root={pb.root} pol={pol[0]} rev={int(pol[1])}")
-                code.append(f"G group={_l(g)} deps={_l(ds)} np={fused.npartitions} nd={fused.ndim}")
-                inputs.append({"query": label, "pol": pol, "plan": pb.text})
-                nontriv.append(True)
-    model = drive(reqs)
-    f.compare(inputs, code, model, nontriv)
+        try:
+            _pass_requests(label, expr, reqs, code, inputs, nontriv, checks)
+        except Exception as e:  # noqa: BLE001
+            reqs.append("ping"); code.append(f"ERR {type(e).__name__}: {str(e)[:80]}")
+            inputs.append({"query": label}); nontriv.append(True); checks.append((len(reqs) - 1, 0))
+        unknown.update(Plan(expr).unknown_bcast)
+    _compare_passes(f, reqs, code, inputs, nontriv, checks)
     if unknown:
         f.disagreements.append({"input": "unknown _broadcast_dep override", "code": sorted(unknown), "model": "default|all"})
-    f.note = f"{len(plans)} real plans x 2 iteration orders"
+    f.note = f"{len(plans)} real plans (fusion corpus + vetted programs)"
     return f
 
 
@@ -561,7 +547,7 @@ def fam_native(ctx):
         cases.append(("real", label, expr))
     for kind, label, expr in cases:
         try:
-            out, calls = _fuse_real(expr, None)
+            out, calls = _fuse_real(expr)
         except Exception as e:  # noqa: BLE001
             reqs.append("ping")
             want.append("OK")
@@ -640,13 +626,13 @@ def fam_task(ctx):
     for _ in range(1200 if ctx.quick else 15000):
         sp = random_spec(rng)
         if spec_wf(sp):
-            cases.append((sp, build_stub(sp)[-1], (rng.randrange(720), rng.random() < 0.5)))
+            cases.append((sp, build_stub(sp)[-1], None))
     for label, expr in _real_plans(ctx):
-        cases.append((label, expr, (0, False)))
+        cases.append((label, expr, None))
     reqs, code, inputs, nontriv = [], [], [], []
     for label, expr, pol in cases:
         try:
-            out, calls = _fuse_real(expr, pol)
+            out, calls = _fuse_real(expr)
         except Exception:  # noqa: BLE001
             continue
         if not calls:
@@ -678,7 +664,7 @@ def fam_meta(ctx):
     inputs, code, model = [], [], []
     for label, expr in _real_plans(ctx):
         try:
-            out, calls = _fuse_real(expr, None)
+            out, calls = _fuse_real(expr)
         except Exception:  # noqa: BLE001
             continue
         for _before, fu in calls:
@@ -824,7 +810,7 @@ def run_stub_case(case):
     spec = [tuple(s[:3]) + (list(s[3]),) for s in case["spec"]]
     ex = build_stub(spec)
     root = ex[-1]
-    out, _ = _fuse_real(root, tuple(case["pol"]) if case.get("pol") else None)
+    out, _ = _fuse_real(root)
     if out.npartitions != root.npartitions or out.ndim != root.ndim:
         return f"npartitions/ndim changed: {root.npartitions},{root.ndim} -> {out.npartitions},{out.ndim}"
     a = e2e.run_or_err(lambda: dask.get(dict(out.__dask_graph__()), out.__dask_keys__()))
@@ -859,31 +845,34 @@ def _cases(ctx, broken):
     cases = []
     for name, _ in real_queries():
         cases.append({"kind": "query", "query": name})
-        cases.append({"kind": "query", "query": name, "twice": True})
+        if "/n3" in name or not ctx.quick:
+            cases.append({"kind": "query", "query": name, "twice": True})
     depth = 2
     progs = programs.valid_programs(depth)
     layouts = _layouts(ctx.quick)
     idx = list(range(len(progs)))
     if ctx.quick:
         rng.shuffle(idx)
-        idx = idx[:260]
+        idx = idx[:180]
     for j, i in enumerate(idx):
         lay = layouts[j % len(layouts)] if ctx.quick else None
         for cl, cr in ([lay] if lay else layouts[:3]):
             cases.append({"kind": "program", "program": progs[i].name, "depth": depth, "cutsL": cl, "cutsR": cr,
                           "known": (j % 3 != 0)})
-    for _ in range(400 if ctx.quick else 6000):
+    for _ in range(300 if ctx.quick else 6000):
         sp = random_spec(rng)
         if spec_wf(sp):
-            cases.append({"kind": "stub", "spec": sp, "pol": [rng.randrange(720), rng.random() < 0.5] if rng.random() < 0.7 else None})
+            cases.append({"kind": "stub", "spec": sp})
     steered = []
     for b in broken:
         inp = (b.get("first") or {}).get("input")
         if isinstance(inp, dict) and "spec" in inp:
-            steered.append({"kind": "stub", "spec": inp["spec"], "pol": list(inp.get("pol") or (0, False))})
-            steered.append({"kind": "stub", "spec": inp["spec"], "pol": None})
-        if isinstance(inp, dict) and "query" in inp and not str(inp["query"]).startswith("prog:"):
-            steered.append({"kind": "query", "query": inp["query"]})
+            steered.append({"kind": "stub", "spec": inp["spec"]})
+        if isinstance(inp, dict) and isinstance(inp.get("case"), list):
+            steered.append({"kind": "stub", "spec": inp["case"]})
+        lab = str(inp.get("query", inp.get("case", ""))) if isinstance(inp, dict) else ""
+        if lab and not lab.startswith("prog:") and lab in dict(real_queries()):
+            steered.append({"kind": "query", "query": lab})
         if isinstance(inp, dict) and str(inp.get("query", inp.get("case", ""))).startswith("prog:"):
             nm = str(inp.get("query", inp.get("case")))[5:]
             for cl, cr in layouts:
